@@ -91,12 +91,14 @@ Section Sim.
       | _ => False
       end.
 
+  Variables (dr1 : R1 -> R1) (dr2 : R2 -> R2).
   Hypothesis Hrf : sim rf1 rf2.
   Hypothesis Hrc : sim rc1 rc2.
+  Hypothesis Hdr : forall r1 r2, rel (dr1 r1) (dr2 r2).
 
   Lemma read_data_sim fuel : forall r1 r2 d, rel r1 r2 ->
-    let '(d1, e1, r1') := read_data R1 rf1 rc1 fuel r1 d in
-    let '(d2, e2, r2') := read_data R2 rf2 rc2 fuel r2 d in
+    let '(d1, e1, r1') := read_data R1 rf1 rc1 dr1 fuel r1 d in
+    let '(d2, e2, r2') := read_data R2 rf2 rc2 dr2 fuel r2 d in
     d1 = d2 /\ e1 = e2 /\ rel r1' r2'.
   Proof.
     induction fuel as [|fuel IH]; intros r1 r2 d Hrel; [simpl; auto|].
@@ -138,8 +140,8 @@ Theorem read_data_segmentation s sch d :
   d1 = d2 /\ e1 = e2 /\ rd_rest r1 = s2.
 Proof.
   unfold read_data_chunked, read_data_flat. simpl rd_rest.
-  apply (read_data_sim reader (list Z) rf_chunked rf_chunked rf_flat rf_flat rd_rel
-           sim_chunked_flat sim_chunked_flat). reflexivity.
+  apply (read_data_sim reader (list Z) rf_chunked rf_chunked rf_flat rf_flat rd_rel rd_drained (fun _ => [])
+           sim_chunked_flat sim_chunked_flat); reflexivity.
 Qed.
 
 (* ---------- the fuel given is never exhausted ---------- *)
@@ -157,7 +159,7 @@ Proof.
 Qed.
 
 Lemma read_data_flat_fuel fuel : forall s d, (length s < 4 * fuel)%nat ->
-  snd (fst (read_data (list Z) rf_flat rf_flat fuel s d)) <> e_fuel.
+  snd (fst (read_data (list Z) rf_flat rf_flat (fun _ => []) fuel s d)) <> e_fuel.
 Proof.
   induction fuel as [|fuel IH]; intros s d Hlen; [lia|].
   cbn [read_data].
@@ -168,7 +170,7 @@ Proof.
   apply rf_flat_len in E4 as [Hl1 Hge].
   set (blen := Z.to_nat (be_dec (skipn 2 h))).
   assert (Hrec : forall n b s2 d', rf_flat n s1 = Ok (b, s2) ->
-                   snd (fst (read_data (list Z) rf_flat rf_flat fuel s2 d')) <> e_fuel).
+                   snd (fst (read_data (list Z) rf_flat rf_flat (fun _ => []) fuel s2 d')) <> e_fuel).
   { intros n b s2 d' E. apply rf_flat_len in E as [Hl2 _]. apply IH. lia. }
   repeat match goal with |- context [if ?c then _ else _] => destruct c end;
     try (simpl; discriminate);
@@ -233,11 +235,11 @@ Ltac hdr_step t c n :=
 
 (* one canonical record moves ReadData one iteration forward and has the effect apply_record *)
 Lemma read_step_canonical r : canonical r = true -> forall fuel rest d,
-  read_data (list Z) rf_flat rf_flat (S fuel) (pack_record r ++ rest) d =
-  read_data (list Z) rf_flat rf_flat fuel rest (apply_record d r).
+  read_data (list Z) rf_flat rf_flat (fun _ => []) (S fuel) (pack_record r ++ rest) d =
+  read_data (list Z) rf_flat rf_flat (fun _ => []) fuel rest (apply_record d r).
 Proof.
   intros Hc fuel rest d.
-  destruct r as [v| |a c|p c|ck|x|x|l]; simpl canonical in Hc; try discriminate;
+  destruct r as [v| |a c|p c|ck|x|x|l|ty body]; simpl canonical in Hc; try discriminate;
     unfold pack_record, pack_simple; rewrite <- app_assoc.
   - (* NextProto *)
     apply andb_true_iff in Hc as [H0 H1].
@@ -269,17 +271,30 @@ Proof.
     hdr_step rec_aead true (length (flat_map (be_enc 2) [al])).
     cbn -[rf_flat read_data be_enc be_dec]. rewrite app_nil_r.
     rewrite (rf_flat_app (be_enc 2 al)) by apply be2_length. rewrite be2_dec by lia. reflexivity.
+  - (* a record of unknown type without the critical bit is swallowed whole *)
+    apply andb_true_iff in Hc as [Hc H3]. apply andb_true_iff in Hc as [Hc H2].
+    apply andb_true_iff in Hc as [H0 H1]. apply Z.ltb_lt in H3. apply Z.leb_le in H0. apply Z.ltb_lt in H1.
+    cbn [read_data]. rewrite (rf_flat_app (pack_header ty false (length body))) by apply pack_header_length.
+    rewrite (hdr_type ty false (length body)) by lia. rewrite hdr_len by exact H3.
+    assert (Hland : Z.land ty 32767 = ty).
+    { change 32767 with (Z.ones 15). rewrite Z.land_ones by lia. apply Z.mod_small. change (2 ^ 15) with 32768. lia. }
+    assert (Hbit : Z.testbit ty 15 = false).
+    { rewrite Z.testbit_false by lia. change (2 ^ 15) with 32768. rewrite Z.div_small by lia. reflexivity. }
+    rewrite Hland, Hbit.
+    unfold rec_eom, rec_nextproto, rec_aead, rec_cookie, rec_server, rec_port, rec_error.
+    repeat match goal with |- context [ty =? ?k] => destruct (Z.eqb_spec ty k) as [E|_]; [lia|] end.
+    rewrite (rf_flat_app body) by reflexivity. reflexivity.
 Qed.
 
 Lemma read_step_end fuel rest d :
-  read_data (list Z) rf_flat rf_flat (S fuel) (pack_record REnd ++ rest) d = (d, 0, rest).
+  read_data (list Z) rf_flat rf_flat (fun _ => []) (S fuel) (pack_record REnd ++ rest) d = (d, 0, rest).
 Proof.
   unfold pack_record. hdr_step rec_eom true 0%nat. reflexivity.
 Qed.
 
 Lemma read_records fuel : forall rs rest d,
   forallb canonical rs = true -> (length rs < fuel)%nat ->
-  read_data (list Z) rf_flat rf_flat fuel (pack_msg (rs ++ [REnd]) ++ rest) d =
+  read_data (list Z) rf_flat rf_flat (fun _ => []) fuel (pack_msg (rs ++ [REnd]) ++ rest) d =
   (fold_left apply_record rs d, 0, rest).
 Proof.
   induction fuel as [|fuel IH]; intros rs rest d Hc Hlen; [lia|].
@@ -322,7 +337,7 @@ Qed.
 
 (* an Error record ends the exchange with the error class of its code *)
 Lemma read_step_error x fuel rest d : 0 <= x < 65536 ->
-  read_data (list Z) rf_flat rf_flat (S fuel) (pack_record (RError x) ++ rest) d =
+  read_data (list Z) rf_flat rf_flat (fun _ => []) (S fuel) (pack_record (RError x) ++ rest) d =
   (d, (if x =? 0 then e_msg_critical else if x =? 1 then e_msg_badreq
        else if x =? 2 then e_msg_internal else e_msg_unknown), rest).
 Proof.
@@ -334,7 +349,7 @@ Qed.
 
 (* a Warning record (type 3, always packed critical) is not known to ReadData: error *)
 Lemma read_step_warning x fuel rest d :
-  snd (fst (read_data (list Z) rf_flat rf_flat (S fuel) (pack_record (RWarning x) ++ rest) d)) = e_unknown_critical.
+  snd (fst (read_data (list Z) rf_flat rf_flat (fun _ => []) (S fuel) (pack_record (RWarning x) ++ rest) d)) = e_unknown_critical.
 Proof.
   unfold pack_record, pack_simple. rewrite <- app_assoc.
   hdr_step rec_warning true (length (be_enc 2 x)). reflexivity.
